@@ -4,8 +4,10 @@ import contracts.storage as ST
 import contracts.chunk as CH
 import contracts.standins_copy as B
 import contracts.standins_storage as BS
+import contracts.copying as CY
 
-PROVED = [ST.read_and_format, ST.read_format_split, ST.save_from, ST.saver_save, CH.chunk_split]
+PROVED = [ST.read_and_format, ST.read_format_split, ST.save_from, ST.saver_save, CH.chunk_split,
+          CY.copy_to_frontend, CY.merge_per_chunk, CY.dry_load_files]
 
 PROPERTY = Property(
     "C16", "proof",
@@ -15,11 +17,17 @@ PROPERTY = Property(
               StandIn("multi-megabyte chunk through every codec", BS.big_round_trip, BS.big_round_trip.harness,
                       budget={"quick": 4, "thorough": 8})],
     trusted=["pyvc VC generator and value model", "z3 5.1.0 / cvc5 1.4.0"],
-    assumptions=["copy_to_frontend, merge_per_chunk_storage, the stand-alone rechunker (mailboxes, thread / process pools), "
+    assumptions=["copy_to_frontend / merge_per_chunk_storage / dry_load_files are under contract for their DECISIONS only (one fresh "
+                 "loader per target, the key the merged data is filed under, which chunks are read); the data path itself, the "
+                 "stand-alone rechunker (mailboxes, thread / process pools), "
                  "_read_format_split_chunk (rechunk on load via Rechunker.get_splits), the Rechunker and the codecs are NOT proved: "
                  "bounded stand-in on the real code",
                  "the backend's _read_chunk is abstract (any rows, may fail)"],
-    explanation="the two ends every copy goes through: StorageBackend._read_and_format_chunk builds a chunk only from rows whose count "
+    explanation="copy_to_frontend gives every target frontend a loader of its own, asks the target for a WRITE location under the "
+                "source's key and rechunks exactly when asked; merge_per_chunk_storage files the merged data under the key of the "
+                "complete data type only if the groups reach from the first to the last chunk of the dependency; dry_load_files reads "
+                "every chunk for None, exactly the named chunks for a list / tuple and exactly that chunk for a single number.  The two "
+                "ends every copy goes through: StorageBackend._read_and_format_chunk builds a chunk only from rows whose count "
                 "equals the recorded count (DataCorrupted otherwise) and gives it exactly the recorded start / end / run id / subruns; "
                 "Saver.save_from / Saver.save write every chunk they receive exactly once under consecutive numbers with the chunk's own "
                 "row count, range and run annotations and finalise only after every write was checked (C03 / C04 contracts); Chunk.split "
